@@ -4,20 +4,20 @@ import os
 
 # property -> rules deciding its structural clauses (DESIGN.md section 4)
 PROPS = {
-    'C01': ['DISPATCH', 'ACDUAL', 'FINCHK', 'SYMIDX', 'ORDTOTAL', 'FRAMERESET', 'MERGE', 'CACHELIFE', 'SIBLING', 'ERASER', 'FORWARD', 'KEYFIELDS', 'QUEUEENDS', 'CLIOPT', 'FLAGRESET'],
-    'C02': ['UNIONCONTRIB', 'PRODUCT', 'WORKLIST', 'COW', 'FORWARD', 'UNIONTRANSL', 'ACCRET', 'SCRATCHRESET', 'NULLPARAM'],
-    'C03': ['SIZEEQ', 'WORKLIST', 'DRAIN', 'COW', 'FORWARD', 'COUNTGUARD', 'USEMOVE', 'ACCRET', 'KEPTRULES'],
+    'C01': ['DISPATCH', 'ACDUAL', 'FINCHK', 'SYMIDX', 'ORDTOTAL', 'FRAMERESET', 'MERGE', 'CACHELIFE', 'SIBLING', 'ERASER', 'FORWARD', 'KEYFIELDS', 'QUEUEENDS', 'CLIOPT', 'FLAGRESET', 'DRAIN'],
+    'C02': ['UNIONCONTRIB', 'PRODUCT', 'WORKLIST', 'COW', 'FORWARD', 'UNIONTRANSL', 'ACCRET', 'SCRATCHRESET', 'NULLPARAM', 'TENTATIVE'],
+    'C03': ['SIZEEQ', 'WORKLIST', 'DRAIN', 'COW', 'FORWARD', 'COUNTGUARD', 'USEMOVE', 'ACCRET', 'KEPTRULES', 'COLLECTALL'],
     'C04': ['KIND', 'SIMMAP', 'COPYALL', 'LOOPBOUND', 'TUPLEPOS', 'FORWARD', 'KEYFIELDS', 'CLIOPT', 'INSETLABEL'],
     'C05': ['SIMMAP', 'KIND', 'LOOPBOUND', 'DRAIN', 'WORKLIST', 'SIZEEQ', 'COW', 'FORWARD', 'ACCRET', 'INSETLABEL', 'COPYALL'],
-    'C07': ['DISPATCH', 'ACDUAL', 'FINCHK', 'MERGE', 'PARALLEL', 'COLLECTALL', 'CACHELIFE', 'SIBLING', 'FORWARD', 'QUEUEENDS', 'CLIOPT', 'SCRATCHRESET', 'GENPRE'],
+    'C07': ['DISPATCH', 'ACDUAL', 'FINCHK', 'MERGE', 'PARALLEL', 'COLLECTALL', 'CACHELIFE', 'SIBLING', 'FORWARD', 'QUEUEENDS', 'CLIOPT', 'SCRATCHRESET', 'GENPRE', 'DRAIN', 'FLAGRESET'],
     'C08': ['UNIONCONTRIB', 'PRODUCT', 'WORKLIST', 'DRAIN', 'INIT', 'COLLECTALL', 'ARITY', 'TUPLEPOS', 'LOADROLE', 'FORWARD', 'USEMOVE', 'UNIONTRANSL', 'ACCRET', 'SCRATCHRESET', 'NULLPARAM'],
-    'C09': ['DISPATCH', 'ACDUAL', 'FINCHK', 'MEMO', 'HASHEQ', 'ORDTOTAL', 'FORWARD', 'ADDRKEY', 'QUEUEENDS', 'CLIOPT', 'FLAGRESET'],
+    'C09': ['DISPATCH', 'ACDUAL', 'FINCHK', 'MEMO', 'HASHEQ', 'ORDTOTAL', 'FORWARD', 'ADDRKEY', 'QUEUEENDS', 'CLIOPT', 'FLAGRESET', 'DRAIN'],
     'C10': ['UNIONCONTRIB', 'PRODUCT', 'PAIRFIELD', 'FINCHK', 'WORKLIST', 'DRAIN', 'PARAMPATH', 'COW', 'FORWARD', 'NFAOPS', 'UNIONTRANSL', 'ACCRET', 'SCRATCHRESET', 'COLLECTALL', 'NULLPARAM'],
     'C11': ['COW', 'CLEARALL', 'HASHCONS', 'CACHELIFE', 'ALPHASRC'],
-    'C13': ['TEXT', 'LOADROLE', 'PARAMPATH', 'PAIRFIELD', 'FORWARD', 'SCRATCHRESET', 'NOTHROW', 'COLLECTALL'],
+    'C13': ['TEXT', 'LOADROLE', 'PARAMPATH', 'PAIRFIELD', 'FORWARD', 'SCRATCHRESET', 'NOTHROW', 'COLLECTALL', 'DRAIN'],
     'C12': ['COW', 'HASHCONS', 'ITER', 'NONEMPTY', 'CLEARALL', 'PARAMPATH', 'USEDSTATES'],
     'C14': ['KIND', 'COW', 'FORWARD', 'SCRATCHRESET', 'HASHCONS'],
-    'C15': ['FINCHK', 'WORKLIST', 'DRAIN', 'KIND', 'HASHCONS', 'COW', 'FORWARD', 'COUNTGUARD', 'ACCRET', 'KEPTRULES'],
+    'C15': ['FINCHK', 'WORKLIST', 'DRAIN', 'KIND', 'HASHCONS', 'COW', 'FORWARD', 'COUNTGUARD', 'ACCRET', 'KEPTRULES', 'COLLECTALL'],
     'C17': ['CANON', 'TEXT'],
     'C18': ['REFCNT', 'CANON'],
     'C19': ['KIND', 'SIMMAP', 'DISPATCH', 'SIBLING', 'ACDUAL', 'ORDTOTAL', 'FRAMERESET', 'HASHEQ', 'MEMO', 'KEYFIELDS', 'ADDRKEY', 'QUEUEENDS', 'CLIOPT', 'FLAGRESET', 'INSETLABEL'],
@@ -33,7 +33,7 @@ FILTER = {
     ('C01', 'MERGE'): r'explicit_tree|antichain',
     ('C07', 'DISPATCH'): r'bdd_|aut_base\.hh',
     ('C07', 'ACDUAL'): r'up_tree_incl_fctor|down_tree_|tree_incl_|antichain',
-    ('C07', 'COLLECTALL'): r'bdd_|tree_incl', ('C08', 'COLLECTALL'): r'bdd_', ('C13', 'COLLECTALL'): r'aut_core\.hh|timbuk|loadable|aut_description', ('C10', 'COLLECTALL'): r'explicit_finite',
+    ('C07', 'COLLECTALL'): r'bdd_|tree_incl', ('C08', 'COLLECTALL'): r'bdd_', ('C03', 'COLLECTALL'): r'explicit_tree_(useless|unreach)', ('C15', 'COLLECTALL'): r'explicit_tree_candidate', ('C13', 'COLLECTALL'): r'aut_core\.hh|timbuk|loadable|aut_description', ('C10', 'COLLECTALL'): r'explicit_finite',
     ('C07', 'MERGE'): r'tree_incl_up\.hh|antichain',
     ('C09', 'DISPATCH'): r'explicit_finite|aut_base\.hh',
     ('C09', 'ACDUAL'): r'explicit_finite|antichain',
@@ -48,7 +48,7 @@ FILTER = {
     ('C17', 'TEXT'): r'sym_var_asgn', ('C13', 'TEXT'): r'timbuk|loadable|convert|aut_core|sym_var',
     ('C15', 'FINCHK'): r'explicit_tree', ('C15', 'WORKLIST'): r'explicit_tree_candidate|explicit_tree_unreach', ('C15', 'DRAIN'): r'explicit_tree_candidate|explicit_tree_unreach',
     ('C15', 'KIND'): r'explicit_tree_candidate', ('C15', 'HASHCONS'): r'explicit_tree_candidate', ('C15', 'COW'): r'explicit_tree_candidate|explicit_tree_unreach',
-    ('C03', 'DRAIN'): r'explicit_tree', ('C08', 'DRAIN'): r'bdd_', ('C10', 'DRAIN'): r'explicit_finite',
+    ('C03', 'DRAIN'): r'explicit_tree', ('C01', 'DRAIN'): r'explicit_tree_incl|down_tree_', ('C07', 'DRAIN'): r'up_tree_incl|down_tree_|tree_incl|bdd_.*incl', ('C09', 'DRAIN'): r'explicit_finite.*fctor|explicit_finite_incl|congr', ('C13', 'DRAIN'): r'aut_core\.hh|loadable|timbuk', ('C08', 'DRAIN'): r'bdd_', ('C10', 'DRAIN'): r'explicit_finite',
     ('C10', 'PARAMPATH'): r'explicit_finite', ('C12', 'PARAMPATH'): r'explicit_tree',
     ('C05', 'DRAIN'): r'explicit_tree', ('C05', 'WORKLIST'): r'explicit_tree_unreach', ('C05', 'SIZEEQ'): r'explicit_tree',
     ('C01', 'CACHELIFE'): r'explicit_tree|util/cache', ('C07', 'CACHELIFE'): r'tree_incl_down|util/cache', ('C11', 'CACHELIFE'): r'util/cache',
@@ -61,7 +61,7 @@ FILTER = {
     ('C12', 'COW'): r'explicit_tree',
     ('C02', 'NULLPARAM'): r'explicit_tree', ('C08', 'NULLPARAM'): r'bdd_', ('C10', 'NULLPARAM'): r'explicit_finite',
     ('C03', 'KEPTRULES'): r'explicit_tree_useless', ('C15', 'KEPTRULES'): r'explicit_tree_candidate',
-    ('C01', 'FLAGRESET'): r'explicit_tree', ('C09', 'FLAGRESET'): r'explicit_finite|comparators',
+    ('C01', 'FLAGRESET'): r'explicit_tree|down_tree_', ('C07', 'FLAGRESET'): r'down_tree_|up_tree_|tree_incl|bdd_', ('C09', 'FLAGRESET'): r'explicit_finite|comparators',
     ('C02', 'SCRATCHRESET'): r'explicit_tree_(isect|union)', ('C07', 'SCRATCHRESET'): r'tree_incl|bdd_.*sim', ('C08', 'SCRATCHRESET'): r'bdd_', ('C10', 'SCRATCHRESET'): r'explicit_finite', ('C13', 'SCRATCHRESET'): r'aut_core\.hh|timbuk|util\.cc', ('C14', 'SCRATCHRESET'): r'explicit_tree_aut_core',
     ('C02', 'ACCRET'): r'explicit_tree_(isect|union)', ('C03', 'ACCRET'): r'explicit_tree_(useless|unreach)', ('C05', 'ACCRET'): r'explicit_tree_aut_core\.cc|explicit_tree_(useless|unreach)', ('C08', 'ACCRET'): r'bdd_', ('C10', 'ACCRET'): r'explicit_finite', ('C15', 'ACCRET'): r'explicit_tree_candidate',
     ('C02', 'UNIONTRANSL'): r'explicit_tree', ('C08', 'UNIONTRANSL'): r'bdd_', ('C10', 'UNIONTRANSL'): r'explicit_finite',
